@@ -855,7 +855,11 @@ func (g *Gen) sPcall() []Stmt {
 	if g.chance(2) {
 		// make sure something fails sometimes
 		g.errSite = false
-		body.Stmts = append([]Stmt{IfS(g.expr(KBool, 1), Blk(Do1(CN("error", g.errValue()))), nil)}, body.Stmts...)
+		// (the condition ends up inside the function: no `...` of the enclosing one)
+		g.inVararg = append(g.inVararg, false)
+		cond := g.expr(KBool, 1)
+		g.inVararg = g.inVararg[:len(g.inVararg)-1]
+		body.Stmts = append([]Stmt{IfS(cond, Blk(Do1(CN("error", g.errValue()))), nil)}, body.Stmts...)
 	}
 	f := &Func{Body: body}
 	g.feat("pcall")
